@@ -91,20 +91,23 @@ CLAIMS = {
 
 # technique additions of the round-3 rules (appended to the technique text)
 ROUND3 = {
- "C01": "nondeterminism-source census extended to hash/maphash, map-order APIs (maps.Keys, sync.Map.Range, reflect map iteration) and address-to-integer conversions",
+ "C01": "nondeterminism-source census extended to hash/maphash, map-order APIs (maps.Keys, sync.Map.Range, reflect map iteration) and address-to-integer conversions; typestate rule 'no use after sync.Pool.Put' and dominance rule 'exported rendering entry point resets the scratch state first'",
  "C10": "nondeterminism-source census extended to hash/maphash and map-order APIs",
- "C02": "must-ask-the-policy path rule for integer constants of symbolic expressions (every path of the constant node's renderer calls the renamer; the renamer answers from ShouldAbstract with a fixed placeholder); polarity clauses of the trip-count derivation",
+ "C02": "must-ask-the-policy path rule for integer constants of symbolic expressions (every path of the constant node's renderer calls the renamer; the renamer answers from ShouldAbstract with a fixed placeholder); polarity clauses of the trip-count derivation; virtual-successor-view census (block order and second-successor reads), canonical-order provenance of the block list used to collect moved instructions, symbolic path analysis of the literal policy's keep results (through negations, merges and helper calls)",
  "C03": "every-path rule for the loop tag of recurrences; exact-rendering rule for constant values; census of reordered sequences by provenance (operand lists of SSA constructs vs reviewed table)",
- "C04": "all structural conditions of C03 re-run under C04 (fingerprint short-circuit)",
- "C05": "provenance of generated signature IDs (per-iteration value and database-state/content/random value, followed through helper parameters)",
- "C08": "guard-edge rule for replacements of the configured threshold (store and phi form): only under a test that found it outside (0,1]",
- "C09": "function-enumeration rules shared with C16; flow rule for the operation lists between collection and report",
+ "C04": "all structural conditions of C03 re-run under C04 (fingerprint short-circuit); conjunction analysis of the comparator (with one attribute equality taken as false no return can yield true); the zipper's map discipline (C09.MAPS) run under C04",
+ "C05": "provenance of generated signature IDs (per-iteration value and database-state/content/random value, followed through helper parameters); producer/consumer agreement of the entropy figure; slot/field agreement at every call of the packed-value encoder (followed through helper parameters)",
+ "C08": "guard-edge rule for replacements of the configured threshold (store and phi form): only under a test that found it outside (0,1]; haystack/needle provenance of containment tests in the requirement matchers; guard direction of ratio inversion",
+ "C09": "function-enumeration rules shared with C16; flow rule for the operation lists between collection and report; mark/test index agreement of the used-sets; counter-follows-status path rule; both-indices-advance rule for the positional alignment",
  "C12": "census of value kinds opened by the summary builder; truncated-division-only rule for big-integer arithmetic in the loop package",
  "C14": "every-request-reaches-the-manager path rule over the CLI adapter's mount collector (excuses: empty, unresolvable, exact duplicate)",
- "C16": "guard-shape census of the member/type/method enumeration (only kind, nil, emptiness and loop tests may keep a member from the enumerator)",
- "C17": "bounded-read rule for every whole-content read in production code",
+ "C16": "guard-shape census of the member/type/method enumeration (only kind, nil, emptiness and loop tests may keep a member from the enumerator); reader-limit-above-size-limit rule; complete-range rule for the method loop",
+ "C17": "bounded-read rule for every whole-content read in production code; bucket cap on the bucket's own length; recorded node size counts both operands; running byte budget is spent",
  "C18": "error-propagation path rule at every storage call of the commands (no success-capable return reachable from the error edge); success-only-after-record-write and every-batch-element-written path rules in the embedded store",
- "C19": "result-carries-function rule shared with C16",
+ "C19": "result-carries-function rule shared with C16; comparator-direction rule for the candidate sort",
+ "C06": "packed-value slot/field agreement shared with C05; re-check/iterator interval agreement for range scans; role-aware emptiness test of stale deletes",
+ "C11": "the one-batch rule of C07 run under C11",
+ "C13": "case-folding agreement between text and phrase list; constant lower bound on the nonce length",
 }
 
 PENDING_REASON = "static check for this property is not armed yet in this revision of the machinery (see DESIGN.md §4 for the planned structural clauses); not claimed until its rules run silent on the tree and fire on their mutants"
